@@ -5,7 +5,7 @@
 -/
 import FcModel.Spec.C14
 import FcProofs.Lemmas.Rounding
-namespace Fc
+namespace Fc.C14
 
 /-! ### rounding is odd -/
 
@@ -82,24 +82,24 @@ theorem subEntry_flt_swap (F : Fmt) (d1 d2 : DType) (x y : Int) :
 
 /-! ### the promotion table on the standard dtypes is symmetric -/
 
-def Fmt.std (F : Fmt) : Prop := F = f64 ∨ F = f32 ∨ F = f16
+def stdFmt (F : Fmt) : Prop := F = f64 ∨ F = f32 ∨ F = f16
 
-def DType.std : DType → Prop
-  | .flt F => F.std
+def stdDType : DType → Prop
+  | .flt F => stdFmt F
   | _ => True
 
-theorem intFloatFmt_std (b : Nat) : (intFloatFmt b).std := by
-  unfold intFloatFmt Fmt.std
+theorem intFloatFmt_std (b : Nat) : stdFmt (intFloatFmt b) := by
+  unfold intFloatFmt stdFmt
   split
   · right; right; rfl
   · split
     · right; left; rfl
     · left; rfl
 
-theorem maxFmt_comm {F G : Fmt} (hF : F.std) (hG : G.std) : maxFmt F G = maxFmt G F := by
+theorem maxFmt_comm {F G : Fmt} (hF : stdFmt F) (hG : stdFmt G) : maxFmt F G = maxFmt G F := by
   rcases hF with rfl | rfl | rfl <;> rcases hG with rfl | rfl | rfl <;> decide
 
-theorem promote_comm {d1 d2 : DType} (h1 : d1.std) (h2 : d2.std) : promote d1 d2 = promote d2 d1 := by
+theorem promote_comm {d1 d2 : DType} (h1 : stdDType d1) (h2 : stdDType d2) : promote d1 d2 = promote d2 d1 := by
   cases d1 <;> cases d2 <;> simp only [promote]
   · rw [maxFmt_comm h1 h2]
   · rw [maxFmt_comm h1 (intFloatFmt_std _)]
@@ -112,4 +112,4 @@ theorem promote_comm {d1 d2 : DType} (h1 : d1.std) (h2 : d2.std) : promote d1 d2
       simp only [hs, hs', if_false]
       cases s <;> cases s' <;> simp_all
 
-end Fc
+end Fc.C14
